@@ -19,6 +19,7 @@ import SamVerif.Gen.Listener
 import SamVerif.Proofs.UpStop
 import SamVerif.Proofs.ProcStop
 import SamVerif.Gen.Session
+import SamVerif.Proofs.RedirStop
 namespace SamVerif.Props.C09
 open SamVerif.Listener
 
@@ -631,6 +632,60 @@ example : ∃ p, run { upstreamFirst := true, cap := 32, toRead := 34 }
 
 end SamVerif.Props.C09s
 
+namespace SamVerif.Props.C09r
+open SamVerif.RedirStop
+
+/-- any number of pending redirections, any room in the silent node's queue, either order of the two connections -/
+def start (aFirst : Bool) (room pending : Nat) : S := { aFirst := aFirst, room := room, pendingRedir := pending }
+
+/-- **Stop returns although a read loop is resending into the full queue of a silent node** (F-09j, since 9cd2b0b): whatever
+the order in which the connections are stopped, whatever is pending — once Serve has begun to stop the connections, every
+schedule is finite (at most `mu` steps) and a schedule that cannot be continued has ended with Stop returned, the read loop
+gone and the silent node's connection closed. -/
+theorem stop_returns_with_a_reader_in_a_full_queue (aFirst : Bool) (room pending : Nat) (ls : List Label) (s : S)
+    (hr : run (start aFirst room pending) ls = some s) (hp : s.pc ≠ .running) :
+    (∀ ls' s', run s ls' = some s' → ls'.length ≤ mu s) ∧
+    (∀ ls' s', run s ls' = some s' → (∀ l, step s' l = none) → s'.pc = .returned ∧ s'.rd = .exited ∧ s'.bLoops = false) := by
+  have h0 : Inv (start aFirst room pending) := by constructor <;> simp [start]
+  obtain ⟨hi, ha, _, _⟩ := run_facts _ s ls h0 hr
+  refine ⟨fun ls' s' h' => by have := (run_facts s s' ls' hi h').2.2.2; omega, ?_⟩
+  intro ls' s' h' hstuck
+  obtain ⟨hi', ha', hp', _⟩ := run_facts s s' ls' hi h'
+  have hab : s'.abort = true := by rw [ha', ha]; rfl
+  have hret : s'.pc = .returned := by
+    by_cases hc : s'.pc = .returned
+    · exact hc
+    · obtain ⟨l, hl⟩ := progress s' hi' hab (hp' hp) hc
+      rw [hstuck l] at hl; cases hl
+  refine ⟨hret, ?_, ?_⟩
+  · cases hrd : s'.rd with
+    | exited => rfl
+    | reading =>
+      have := hstuck .readerExits
+      simp [step, hrd, (hi'.2 (Or.inr hret)).1] at this
+    | sending =>
+      have := hstuck .aborted
+      simp [step, hrd, hab, (hi'.2 (Or.inr hret)).1] at this
+  · cases hb : s'.bLoops with
+    | false => rfl
+    | true =>
+      have := hstuck .bExits
+      simp [step, hb, (hi'.2 (Or.inr hret)).2] at this
+
+/-- **Before 9cd2b0b**: `Send` gave up only on the *target's* quit.  One redirection pending, no room in the silent node's queue,
+the redirecting connection first in the map: Stop closes its quit and waits for a read loop that waits for room — nothing can move. -/
+theorem old_send_ignores_its_own_quit :
+    ∃ s, run { abort := false, aFirst := true, room := 0, pendingRedir := 1 } [.reply, .stop, .close] = some s ∧
+      s.pc = .waitFirst ∧ s.rd = .sending ∧ ∀ l, step s l = none := by
+  refine ⟨_, rfl, rfl, rfl, ?_⟩
+  intro l; cases l <;> rfl
+
+/-- the same schedule now: the read loop gives up, ends, and Stop goes on to the silent node's connection and returns -/
+example : ∃ s, run (start true 0 1) [.reply, .stop, .close, .aborted, .readerExits, .waited, .close, .bExits, .waited] = some s ∧
+    s.pc = .returned := ⟨_, rfl, rfl⟩
+
+end SamVerif.Props.C09r
+
 #print axioms SamVerif.Props.C09.stop_releases
 #print axioms SamVerif.Props.C09.stop_never_stuck
 #print axioms SamVerif.Props.C09.winding_step_decreases
@@ -649,3 +704,5 @@ end SamVerif.Props.C09s
 #print axioms SamVerif.Props.C09s.stop_returns_behind_unanswered_requests
 #print axioms SamVerif.Props.C09s.old_stop_order_hangs
 #print axioms SamVerif.Props.C09.session_loops_match_model
+#print axioms SamVerif.Props.C09r.stop_returns_with_a_reader_in_a_full_queue
+#print axioms SamVerif.Props.C09r.old_send_ignores_its_own_quit
